@@ -498,3 +498,88 @@ func VerifC15_SubsetEmptyValue() {
 	}
 	verif.Cover("end")
 }
+
+// VerifC15_SubsetThreeKeys: one selector [k1,k2,k3] and a default subset over
+// the same three keys; two (thorough: three) hosts carry every key with either
+// of two values, every assignment; criteria over all three keys, every
+// combination of values. A request is sent only to a host carrying all three
+// pairs - in particular not to a host that carries the trailing pair(s) only -
+// else to the fallback (none / any / the hosts carrying the whole default
+// subset); HostNum and IsExistsHosts describe the same set. Both builders.
+func VerifC15_SubsetThreeKeys() {
+	verif.Replace("math/rand.NewSource", func(int64) rand.Source { return zzAnySource{} })
+	keys := []string{"k1", "k2", "k3"}
+	vals := []string{"a", "b"}
+	n := verif.Param("three_key_hosts", 2, 3)
+	var hs []types.Host
+	for i := 0; i < n; i++ {
+		meta := api.Metadata{}
+		for _, k := range keys {
+			meta[k] = vals[verif.Choose("host_"+k, 2)]
+		}
+		h := &zzMetaHost{meta: meta}
+		h.name, h.healthy, h.weight = zzHostNames[i], true, 10
+		hs = append(hs, h)
+	}
+	policy := verif.Choose("fallback", 3) // 0 none, 1 any, 2 default subset
+	def := []zzCriterion{{"k1", "a"}, {"k2", vals[verif.Choose("default_k2", 2)]}, {"k3", "a"}}
+	dmap := map[string]string{}
+	for _, c := range def {
+		dmap[c.k] = c.v
+	}
+	cfg := &v2.LBSubsetConfig{FallBackPolicy: uint8(policy), SubsetSelectors: [][]string{{"k3", "k1", "k2"}}, DefaultSubset: dmap}
+	info := &zzSubInfo{sub: NewLBSubsetInfo(cfg), st: &types.ClusterStats{LBSubSetsFallBack: &zzLBCounter{}, LBSubsetsCreated: &zzSubGauge{}}}
+	var crit []zzCriterion
+	var cs []api.MetadataMatchCriterion
+	for _, k := range keys {
+		crit = append(crit, zzCriterion{k, vals[verif.Choose("crit_"+k, 2)]})
+	}
+	for i := range crit {
+		cs = append(cs, &crit[i])
+	}
+	ctx := &zzSubCtx{ctx: variable.NewVariableContext(context.Background())}
+	ctx.crit = &zzCriteria{cs}
+	matching, inDefault := 0, 0
+	for _, h := range hs {
+		if zzHas(h, crit) {
+			matching++
+		}
+		if zzHas(h, def) {
+			inDefault++
+		}
+	}
+	for variant := 0; variant < 2; variant++ {
+		var lb types.LoadBalancer
+		if variant == 0 {
+			lb = NewSubsetLoadBalancer(info, NewHostSet(hs))
+		} else {
+			lb = NewSubsetLoadBalancerPreIndex(info, NewHostSet(hs))
+		}
+		r := lb.ChooseHost(ctx)
+		want := 0
+		switch {
+		case matching > 0:
+			verif.Assert(r != nil && zzHas(r, crit), "a request was sent to a host that does not carry every criteria pair although such a host exists")
+			want = matching
+			verif.Cover("matched")
+		case policy == 0:
+			verif.Assert(r == nil, "no host carries the three pairs and fallback is none: a host was returned (a host carrying only some of the pairs)")
+			verif.Cover("fallback-none")
+		case policy == 1:
+			verif.Assert(r != nil, "fallback any-endpoint must return some host")
+			want = n
+		default:
+			if inDefault > 0 {
+				verif.Assert(r != nil && zzHas(r, def), "fallback default-subset returned a host that does not carry the whole default subset")
+				verif.Cover("fallback-default")
+			} else {
+				verif.Assert(r == nil, "no host carries the whole default subset: the default fallback must not return a host")
+				verif.Cover("fallback-default-empty")
+			}
+			want = inDefault
+		}
+		verif.Assert(lb.HostNum(ctx.crit) == want, "HostNum is not the size of the matched subset / fallback host set")
+		verif.Assert(lb.IsExistsHosts(ctx.crit) == (want > 0), "IsExistsHosts disagrees with the matched subset / fallback host set")
+	}
+	verif.Cover("end")
+}
